@@ -54,6 +54,34 @@ def line_ending_run(rng, tail=b''):
     return bytes(rng.choice(b'abcdefgh ,;') for _ in range(pre)) + run + tail
 
 
+# Pairs of bytes (or short byte strings of equal length) that a reader which "normalises text" could fold together although the
+# documented text digest keeps them apart (it drops CR and LF and NOTHING else, and alters no byte): bytes that are not valid
+# UTF-8 (Latin-1 letters, lone continuation bytes, 0xFE/0xFF, a truncated or overlong sequence), valid UTF-8 that differs in one
+# continuation byte, precomposed vs other letter, control bytes, blanks, the other "line break" characters (VT, FF, NEL, U+2028/9),
+# a byte-order mark, upper/lower case.  Never CR, LF or NUL: the line structure and the text/binary class are the same.
+FOLDABLE = [(b'\xe9', b'\xe8'), (b'\xe9', b'\xe8'), (b'\xfc', b'\xf6'), (b'\x80', b'\xbf'), (b'\xff', b'\xfe'), (b'\xc3', b'\xc4'),
+            (b'\xc0\x80', b'\xc0\x81'), (b'\xed\xa0\x80', b'\xed\xa0\x81'), (b'\xf5', b'\xf8'),
+            (b'\xc3\xa9', b'\xc3\xa8'), (b'\xe2\x80\xa8', b'\xe2\x80\xa9'), (b'\xc2\x85', b'\xc2\xa0'), (b'\x01', b'\x02'), (b'\t', b' '),
+            (b'\x0b', b'\x0c'), (b'\x1a', b'\x1b'), (b'\xef\xbb\xbf', b'\xef\xbb\xbe'), (b'A', b'a'), (b'\x7f', b'\x08')]
+
+
+def near_duplicate_pair(rng, tag=b''):
+    """Two texts (no NUL: hashed as text under `auto`) with the SAME line structure (LF / CR LF / mixed / none) that differ only
+    in 1-3 places by a pair of FOLDABLE: at the start, inside a line, right before a line ending, as the last byte."""
+    x, y = rng.choice(FOLDABLE)
+    eol = rng.choice([b'\n', b'\r\n', b'\n', b'\r', b''])
+    words = [b'caf', b' cr', b'me br', b'l', b'e na', b've', b' d', b'j', b' vu']
+    k = rng.randint(1, 3)
+    spots = set(rng.sample(range(len(words)), k))
+    if rng.random() < 0.3: spots.add(len(words) - 1)
+    a = b = tag
+    for i, w in enumerate(words):
+        a += w + (x if i in spots else x); b += w + (y if i in spots else x)
+        if i % 3 == 2: a += eol; b += eol
+    if rng.random() < 0.3: a, b = x + a, y + b
+    return a, b
+
+
 def content_pool(rng):
     """content classes of the property's quantifier; all pairwise distinct after CR/LF stripping"""
     big_text = (b'line %d\n' * 1 % 7) + bytes(rng.choice(b'abcdefgh') for _ in range(8100))
@@ -74,6 +102,10 @@ def content_pool(rng):
     # the same, as a dimension: prefix length x kind of line ending x run length; two texts that differ only AFTER the run
     base = line_ending_run(rng)
     pool['lerun-a'], pool['lerun-b'] = base + b'total,A', base + b'total,B'
+    # text that is NOT valid UTF-8 / near-duplicates (drawn from their own generator: the classes above are what they were)
+    r3 = random.Random(rng.random())
+    pool['latin1'] = 'déjà vu, crème brûlée\nnaïve\r\n'.encode('latin-1')
+    pool['neardup-a'], pool['neardup-b'] = near_duplicate_pair(r3)
     return pool
 
 
@@ -93,6 +125,7 @@ def model_line(c):
     if t == 'write': return '\t'.join(['writess' if c.get('same_second') else 'write', c['path'], c['bytes'].hex()])
     if t == 'emptydir': return '\t'.join(['emptydir', c['path']])
     if t == 'delete': return '\t'.join(['delete', c['path']])
+    if t == 'relink': return '\t'.join(['relink', c['path'], c['kind'], str(c.get('n', 0))])
     if t == 'track': return '\t'.join(['track', o('method'), o('tob'), b('no_commit'), b('force')] + c['targets'])
     if t == 'carryin': return '\t'.join(['carryin', o('tob'), b('force')] + c['targets'])
     if t == 'recheck': return '\t'.join(['recheck', o('method'), b('force')] + c['targets'])
@@ -165,9 +198,12 @@ def show_cmd(c):
         return f"mkdir -p .xvc/<algorithm>/<digest of the bytes at {c['path']}, split 3/3/58>/   [an EMPTY digest directory]"
     if c['op'] == 'delete':
         return f"delete {c['path']}"
-    if c['op'] == 'link':
-        import c05
-        return c05.show_link(c)
+    if c['op'] == 'relink':
+        return {'relative': f"ln -sfn \"$(realpath --relative-to=\"$(dirname {c['path']})\" \"$(readlink -f {c['path']})\")\" {c['path']}   [the same link, written relative]",
+                'alias': f"ln -sfn \"$(readlink {c['path']} | sed \"s|^$PWD|$PWD-alias|\")\" {c['path']}   [the same link through a second name of the repository directory: ln -s repo ../repo-alias]",
+                'chain': f"ln -s \"$(readlink {c['path']})\" ../outside/hop-{c.get('n', 0)}; ln -sfn ../outside/hop-{c.get('n', 0)} {c['path']}   [a link to a link to the same object]",
+                'dotted': f"ln -sfn \"$PWD/./$(realpath --relative-to=. \"$(readlink -f {c['path']})\")\" {c['path']}   [the same absolute link with a /./ component]",
+                }[c['kind']]
     try:
         if c.get('cache_blocked'):
             return 'xvc ' + ' '.join(xvc_args(c)) + f"   [a non-directory in the way of the cache address of the bytes at {c['cache_blocked']}: the move into the cache fails]"
@@ -191,9 +227,15 @@ class Obs:
             if base in ('.gitignore', '.xvcignore'):
                 continue
             if k['kind'] == 'symlink':
+                # what the link RESOLVES to (a link is its meaning, not its spelling): the directory part is resolved through
+                # every intermediate link, the last component too if it is a link itself; a dangling link still names its address
                 tgt = k['target']
                 xd = sb.path('.xvc') + '/'
-                k['addr'] = tgt[len(xd):] if tgt.startswith(xd) else None
+                full = tgt if os.path.isabs(tgt) else os.path.join(os.path.dirname(sb.path(rel)), tgt)
+                if not full.startswith(xd) or '/./' in full or '/../' in full:
+                    full, xd = os.path.realpath(full), os.path.realpath(sb.path('.xvc')) + '/'
+                    k['respelled'] = True
+                k['addr'] = full[len(xd):] if full.startswith(xd) else None
             elif k['kind'] == 'file':
                 k['addrs'] = sorted(ino2addrs.get(k['ino'], []))
                 k['addr'] = k['addrs'][0] if k['addrs'] else None
@@ -338,6 +380,36 @@ def block_cache(sb, cfg, paths):
     return made, ok
 
 
+def relink(sb, c):
+    """The USER re-spells the symbolic link at `path` without changing what it resolves to: relative instead of absolute,
+    through a second name of the repository directory (`<repo>-alias -> <repo>`), through an intermediate link outside the
+    repository, or with a `/./` component.  Anything that is not a symbolic link is left alone (no-op)."""
+    p = sb.path(c['path'])
+    if not os.path.islink(p):
+        return 0, '', 'not a symbolic link: left alone'
+    old = os.readlink(p)
+    absold = old if os.path.isabs(old) else os.path.join(os.path.dirname(p), old)
+    k = c['kind']
+    if k == 'relative':
+        new = os.path.relpath(os.path.realpath(os.path.dirname(absold)), os.path.realpath(os.path.dirname(p))) + '/' + os.path.basename(absold)
+    elif k == 'alias':
+        alias = sb.root + '-alias'
+        if not os.path.lexists(alias):
+            os.symlink(os.path.basename(sb.root), alias)
+        new = alias + absold[len(sb.root):] if absold.startswith(sb.root + '/') else absold
+    elif k == 'chain':
+        hop = os.path.join(sb.base, 'outside', f"hop-{c.get('n', 0)}")
+        os.makedirs(os.path.dirname(hop), exist_ok=True)
+        if os.path.lexists(hop): os.unlink(hop)
+        os.symlink(absold, hop)
+        new = os.path.relpath(hop, os.path.dirname(p))
+    else:
+        new = sb.root + '/.' + absold[len(sb.root):] if absold.startswith(sb.root + '/') else absold
+    os.unlink(p)
+    os.symlink(new, p)
+    return 0, '', ''
+
+
 def recorded_mtime_ns(sb, pre, rel):
     """modification time xvc has on record for the path (xvc-metadata store), else the one the file has now, else None"""
     try:
@@ -389,6 +461,8 @@ class Runner:
         if c['op'] == 'link':
             import c05
             return c05.exec_link(sb, c)
+        if c['op'] == 'relink':
+            return relink(sb, c)
         if c['op'] == 'write':
             old_ns = recorded_mtime_ns(sb, pre, c['path']) if c.get('same_second') else None
             sb.write(c['path'], c['bytes'])
@@ -770,6 +844,9 @@ def add_motifs(cfg, h, paths, methods):
               {'op': 'track', 'targets': [p], 'method': optm(), 'no_parallel': np_()}, {'op': 'delete', 'path': p}, {'op': 'recheck', 'targets': [p]}]
     method_change_motif(r2, h, paths, methods, content, np_)
     earlier_version_motif(r2, h, paths, methods, content, np_)
+    mode_change_motif(r2, cfg, h, paths, methods, np_)
+    near_duplicate_motif(r2, h, paths, methods, np_)
+    respelled_link_motif(r2, h, paths, methods, content, np_)
 
 
 def method_change_motif(r2, h, paths, methods, content, np_):
@@ -831,3 +908,88 @@ def earlier_version_motif(r2, h, paths, methods, content, np_):
     elif f < 0.8: h.append({'op': 'remove', 'targets': [victim], 'all_versions': False})
     else: h.append({'op': 'remove', 'targets': [victim], 'all_versions': True})
     h += [{'op': 'recheck', 'targets': [other], 'force': True, 'no_parallel': np_()}, {'op': 'delete', 'path': other}, {'op': 'recheck', 'targets': [other, victim]}]
+
+
+def mode_change_motif(r2, cfg, h, paths, methods, np_, p_=0.2):
+    """mode-change    a path tracked in text-or-binary mode A (by option or by configuration), its content EDITED (the contents
+                    contain CR/LF, so the text digest and the raw digest differ; with and without a NUL, so `auto` goes both
+                    ways), then `carry-in` / `track` [--force] with `--text-or-binary B`: the new version is addressed by the
+                    digest of its bytes under B, the mode the command records (C02; `address-not-under-recorded-mode`).  Controls:
+                    no edit in between (mode change alone re-hashes, F24), no option (recorded mode stays).  Then delete + recheck.
+                    Not combined with hard links (see gen_history: the model has no inode aliasing between cache objects)."""
+    if r2.random() >= p_ or 'hardlink' in methods or cfg.get('method') == 'hardlink':
+        return
+    p = r2.choice(paths)
+    tag = f'mode-{r2.randrange(10 ** 9)}'
+    def body(v):
+        shape = r2.choice(['crlf', 'lf', 'mixed', 'nul-late', 'nul-early'])
+        t = {'crlf': f'{tag} v{v}\r\nrow;2\r\n', 'lf': f'{tag} v{v}\nrow;2\n', 'mixed': f'{tag} v{v}\r\nrow\nend\r',
+             'nul-late': f'{tag} v{v}\r\n' + 'x' * 8000 + '\x00\n', 'nul-early': f'{tag} v{v}\r\n\x00\n'}[shape]
+        return t.encode()
+    modes = [None, 'auto', 'text', 'binary']
+    A = r2.choice(modes)
+    h += [{'op': 'write', 'path': p, 'bytes': body(1), 'cname': 'mode-v1'},
+          {'op': 'track', 'targets': [p], 'method': r2.choice([None] + methods), 'tob': A, 'no_parallel': np_()}]
+    for v in range(2, 2 + r2.choice([1, 1, 2])):
+        if r2.random() < 0.8:
+            h.append({'op': 'write', 'path': p, 'bytes': body(v), 'cname': f'mode-v{v}'})
+        B = r2.choice([m for m in modes[1:] if m != A] * 3 + [None])
+        f = r2.random()
+        if f < 0.6: h.append({'op': 'carryin', 'targets': [p], 'tob': B, 'force': r2.random() < 0.2, 'no_parallel': np_()})
+        else: h.append({'op': 'track', 'targets': [p], 'tob': B, 'force': r2.random() < 0.2, 'no_parallel': np_()})
+        A = B
+    h += [{'op': 'delete', 'path': p}, {'op': 'recheck', 'targets': [p], 'no_parallel': np_()}]
+
+
+def near_duplicate_motif(r2, h, paths, methods, np_, p_=0.12):
+    """near-duplicate two contents hashed as text that differ only in bytes a text-normalising reader could fold together
+                    (near_duplicate_pair: invalid UTF-8, control bytes, blanks, other line-break characters ...; same line
+                    structure, so no CR/LF collision): on two paths of one extension tracked together or one after the other, or
+                    on ONE path edited from one variant to the other and carried in; then delete + recheck of both.  Two contents,
+                    two objects, each at the address of its own bytes; each path comes back with its own bytes (C01, C02, C03)."""
+    if r2.random() >= p_:
+        return
+    p = r2.choice(paths)
+    cands = [q for q in PATHS if ext_of(q) == ext_of(p) and q != p]
+    A, B = near_duplicate_pair(r2, tag=f'nd-{r2.randrange(10 ** 9)} '.encode())
+    m = lambda: r2.choice([None] + methods)
+    shape = r2.choice(['together', 'one-by-one', 'edit'] if cands else ['edit'])
+    if shape == 'edit':
+        h += [{'op': 'write', 'path': p, 'bytes': A, 'cname': 'neardup-a'}, {'op': 'track', 'targets': [p], 'method': m(), 'no_parallel': np_()},
+              {'op': 'write', 'path': p, 'bytes': B, 'cname': 'neardup-b'},
+              r2.choice([{'op': 'carryin', 'targets': [p], 'no_parallel': np_()}, {'op': 'track', 'targets': [p], 'no_parallel': np_()},
+                         {'op': 'carryin', 'targets': [p], 'force': True, 'no_parallel': np_()}]),
+              {'op': 'delete', 'path': p}, {'op': 'recheck', 'targets': [p], 'no_parallel': np_()}]
+        return
+    q = r2.choice([c for c in cands if c not in paths] or cands)
+    if q not in paths: paths.append(q)
+    h += [{'op': 'write', 'path': p, 'bytes': A, 'cname': 'neardup-a'}, {'op': 'write', 'path': q, 'bytes': B, 'cname': 'neardup-b'}]
+    if shape == 'together': h.append({'op': 'track', 'targets': [p, q], 'method': m(), 'no_parallel': np_()})
+    else: h += [{'op': 'track', 'targets': [p], 'method': m(), 'no_parallel': np_()}, {'op': 'track', 'targets': [q], 'method': m(), 'no_parallel': np_()}]
+    h += [{'op': 'delete', 'path': p}, {'op': 'delete', 'path': q}, {'op': 'recheck', 'targets': [q, p], 'no_parallel': np_()}]
+
+
+RELINK_KINDS = ['relative', 'relative', 'alias', 'chain', 'dotted']
+
+
+def respelled_link_motif(r2, h, paths, methods, content, np_, p_=0.10):
+    """respelled-link a path tracked with the symlink method whose link the USER wrote again with another spelling of the same
+                    target (relink: relative, through a second name of the repository directory, through an intermediate link,
+                    with a /./ component) - what `cp -a`/rsync into a renamed checkout, `ln -r`, or a moved project directory with
+                    a compatibility link leave behind.  It still IS a link to the cached copy.  Then `carry-in --force` /
+                    `track --force` / `recheck [--force]` / `untrack` / `remove`, then delete + recheck: the committed version is
+                    still in the cache and comes back (C04 `object-lost-by-force`, C01, C05)."""
+    if r2.random() >= p_:
+        return
+    p = r2.choice(paths)
+    X = content()
+    h += [{'op': 'write', 'path': p, 'bytes': X, 'cname': 'motif'}, {'op': 'track', 'targets': [p], 'method': 'symlink', 'no_parallel': np_()},
+          {'op': 'relink', 'path': p, 'kind': r2.choice(RELINK_KINDS), 'n': len(h)}]
+    for _ in range(r2.choice([1, 1, 2])):
+        f = r2.random()
+        if f < 0.45: h.append({'op': 'carryin', 'targets': [p], 'force': True, 'no_parallel': np_()})
+        elif f < 0.55: h.append({'op': 'track', 'targets': [p], 'force': True, 'no_parallel': np_()})
+        elif f < 0.65: h.append({'op': 'carryin', 'targets': [p], 'no_parallel': np_()})
+        elif f < 0.85: h.append({'op': 'recheck', 'targets': [p], 'force': r2.random() < 0.5, 'no_parallel': np_()})
+        else: h.append({'op': 'relink', 'path': p, 'kind': r2.choice(RELINK_KINDS), 'n': len(h)})
+    h += [{'op': 'delete', 'path': p}, {'op': 'recheck', 'targets': [p], 'no_parallel': np_()}]
